@@ -19,6 +19,12 @@
    * a work function may call execute_operation itself ([WExec], to any depth):
      [exec_in] is structurally recursive in the script; the nested call is made
      only under an id that is neither live nor that of an enclosing call;
+   * the callables the caller hands in are known by their SIGNATURE ([shape]: the
+     range of positional-argument counts they accept, and their truth value as
+     objects): execute_operation calls work_fn() and validate_fn(result); a
+     signature that does not accept that call makes the call itself raise
+     TypeError without running the body ([exec_work], [validate_outcome]);
+     [work_runs] / [validate_runs] count how often each body ran;
    * the [flags] argument switches back to the behaviour before the three
      `fix:` commits 8bfbd27 / e0df91f / b431062 (documentation and refutation
      only); [current] is the code as it is. *)
@@ -609,6 +615,23 @@ Definition fstep (fl : flags) (w : wcfg) (s : st) (a : fop) : st * list Z :=
 
 Inductive vfn := VNone | VTrue | VFalse | VRaise.
 
+(* The SIGNATURE of a callable the caller hands in (work_fn, validate_fn): how many
+   positional arguments a call may supply - [sh_lo .. sh_hi], [None] = no upper
+   bound (`*args`).  def f(): 0..0; lambda *a: 0..; def f(ctx=None): 0..1;
+   def f(result): 1..1; def f(result, strict=False): 1..2; a functools.partial, a
+   bound method, an object with __call__: the same, counted after the bound
+   arguments.  A call that supplies a number of arguments the signature does not
+   accept raises TypeError BEFORE the body runs (the body does not run at all);
+   a call that it accepts runs the body - exactly once per call.
+   [sh_truthy]: bool(callable) - a callable OBJECT may be falsy (an empty rule list
+   with __call__, __len__() == 0, __bool__ returning False); execute_operation asks
+   `validate_fn is not None` (cbf3ada), so nothing below reads this field. *)
+Record shape := mkShape { sh_lo : nat; sh_hi : option nat; sh_truthy : bool }.
+Definition accepts (sh : shape) (n : nat) : bool :=
+  Nat.leb (sh_lo sh) n && match sh_hi sh with Some h => Nat.leb n h | None => true end.
+Definition sh_noargs : shape := mkShape 0 (Some 0%nat) true.   (* def work_fn(): ... *)
+Definition sh_onearg : shape := mkShape 1 (Some 1%nat) true.   (* def validate_fn(result): ... *)
+
 (* what a CHECKPOINT callback may do besides returning its verdict: the ways an
    operation is ended from outside (manual kill of any operation, a watchdog
    pass, a maintenance pass = priority inheritance + watchdog, shutdown), time
@@ -628,7 +651,7 @@ with script := mkScript
   (sc_work : list wact)       (* what work_fn does before it returns / raises *)
   (sc_work_raises : bool)
   (sc_validate : vfn)
-  (sc_val : Z).               (* WHICH Python objects the callbacks of this call use: the exception object a
+  (sc_val : Z)                (* WHICH Python objects the callbacks of this call use: the exception object a
                                  raising checkpoint / work function / validator raises (with a message, without
                                  arguments, a bare assert, KeyError(), StopIteration(), a falsy one, one of the
                                  system's own error classes, one whose __str__ itself raises ...), the falsy object a rejecting validator returns
@@ -637,23 +660,46 @@ with script := mkScript
                                  to the class name when that raises: cc45a69), tests the verdict for truth and
                                  passes the result on, so nothing below reads this field
                                  ([with_val] / c14_callback_values_irrelevant) *)
+  (sc_wsh : shape)            (* the signature of work_fn: execute_operation calls work_fn() *)
+  (sc_vsh : shape).           (* the signature of validate_fn: execute_operation calls validate_fn(result) *)
 
-Definition sc_cp (sc : script) := match sc with mkScript x _ _ _ _ _ => x end.
-Definition sc_cpw (sc : script) := match sc with mkScript _ x _ _ _ _ => x end.
-Definition sc_work (sc : script) := match sc with mkScript _ _ x _ _ _ => x end.
-Definition sc_work_raises (sc : script) := match sc with mkScript _ _ _ x _ _ => x end.
-Definition sc_validate (sc : script) := match sc with mkScript _ _ _ _ x _ => x end.
-Definition sc_val (sc : script) := match sc with mkScript _ _ _ _ _ x => x end.
+Definition sc_cp (sc : script) := match sc with mkScript x _ _ _ _ _ _ _ => x end.
+Definition sc_cpw (sc : script) := match sc with mkScript _ x _ _ _ _ _ _ => x end.
+Definition sc_work (sc : script) := match sc with mkScript _ _ x _ _ _ _ _ => x end.
+Definition sc_work_raises (sc : script) := match sc with mkScript _ _ _ x _ _ _ _ => x end.
+Definition sc_validate (sc : script) := match sc with mkScript _ _ _ _ x _ _ _ => x end.
+Definition sc_val (sc : script) := match sc with mkScript _ _ _ _ _ x _ _ => x end.
+Definition sc_wsh (sc : script) := match sc with mkScript _ _ _ _ _ _ x _ => x end.
+Definition sc_vsh (sc : script) := match sc with mkScript _ _ _ _ _ _ _ x => x end.
+
+(* a script whose callables have the ordinary signatures: work_fn(), validate_fn(result) *)
+Definition mkPlain cp cpw work wr v k : script := mkScript cp cpw work wr v k sh_noargs sh_onearg.
 
 (* the same script with the value index [k] everywhere, also in the nested calls of its work function *)
 Fixpoint with_val (k : Z) (sc : script) : script :=
   match sc with
-  | mkScript cp cpw work wr v _ =>
+  | mkScript cp cpw work wr v _ ws vs =>
       mkScript cp cpw
         (map (fun a => match a with
                        | WExec o p reqs sc' => WExec o p reqs (with_val k sc')
                        | _ => a
-                       end) work) wr v k
+                       end) work) wr v k ws vs
+  end.
+
+(* signatures up to what execute_operation can tell apart: does the signature accept
+   the call that is made (work_fn(): no argument; validate_fn(result): one)? *)
+Definition canon (n : nat) (sh : shape) : shape :=
+  if accepts sh n then mkShape n (Some n) true else mkShape (S n) (Some (S n)) true.
+
+(* the same script with canonical signatures everywhere, also in the nested calls *)
+Fixpoint norm_sig (sc : script) : script :=
+  match sc with
+  | mkScript cp cpw work wr v k ws vs =>
+      mkScript cp cpw
+        (map (fun a => match a with
+                       | WExec o p reqs sc' => WExec o p reqs (norm_sig sc')
+                       | _ => a
+                       end) work) wr v k (canon 0 ws) (canon 1 vs)
   end.
 
 Definition cact_wact (a : cact) : wact :=
@@ -682,6 +728,13 @@ Definition probe (s : st) : list (Z * Z) :=
       (resources s).
 
 Record result := mkResult { r_success : bool; r_phase : phase; r_log : list ev }.
+
+(* how many times the BODY of work_fn / validate_fn ran during the call *)
+Definition is_work (e : ev) : bool := match e with EvWork _ => true | _ => false end.
+Definition is_validate (e : ev) : bool :=
+  match e with EvValidate _ | EvValidateRaise => true | _ => false end.
+Definition work_runs (r : result) : nat := length (filter is_work (r_log r)).
+Definition validate_runs (r : result) : nat := length (filter is_validate (r_log r)).
 
 Definition phase_code (p : phase) : Z :=
   match p with G0 => 0 | G1 => 1 | PS => 2 | G2 => 3 | PM => 4 end.
@@ -767,12 +820,28 @@ Notation run_work := (run_work_with no_nested []).
    read ctx.phase, run the callback of the checkpoint ([cb_of sc k]), then
    [advance_at] with the k-th verdict.
    [chk] = the liveness test before work_fn (fix 531c938); [exec_op] has it. *)
-Definition exec_validate (fl : flags) (w : wcfg) (s7 : st) (o : Z) (sc : script) (log3 : list ev) : st * result :=
+Definition has_validator (sc : script) : bool :=
+  match sc_validate sc with VNone => false | _ => true end.
+
+(* what `if validate_fn is not None: if not validate_fn(result): raise ...` comes to:
+   no validator; the call validate_fn(result) is refused by the validator's signature
+   (TypeError, the body does not run); the body runs and returns true / false / raises *)
+Inductive vout := ONone | OTrue | OFalse | ORaise | OUncallable.
+Definition validate_outcome (sc : script) : vout :=
   match sc_validate sc with
-  | VFalse => failed fl s7 o (log3 ++ [EvValidate false])
-  | VRaise => failed fl s7 o (log3 ++ [EvValidateRaise])
+  | VNone => ONone
+  | v => if accepts (sc_vsh sc) 1
+         then match v with VTrue => OTrue | VFalse => OFalse | _ => ORaise end
+         else OUncallable
+  end.
+
+Definition exec_validate (fl : flags) (w : wcfg) (s7 : st) (o : Z) (sc : script) (log3 : list ev) : st * result :=
+  match validate_outcome sc with
+  | OUncallable => failed fl s7 o log3       (* validate_fn(result) raises TypeError: its body does not run *)
+  | OFalse => failed fl s7 o (log3 ++ [EvValidate false])
+  | ORaise => failed fl s7 o (log3 ++ [EvValidateRaise])
   | v =>
-      let log4 := log3 ++ match v with VTrue => [EvValidate true] | _ => [] end in
+      let log4 := log3 ++ match v with OTrue => [EvValidate true] | _ => [] end in
       let s8 := upd_ctx s7 o c_set_valid in
       let '(s8', l3) := run_work fl w s8 (cb_of sc 3) in
       let '(s9, b3) := advance_at (phase_of s8 o) s8' o (cp_of sc 3) in
@@ -789,6 +858,9 @@ Definition exec_after_work (fl : flags) (w : wcfg) (s5 : st) (o : Z) (sc : scrip
   if negb b2 then failed fl s7 o log3 else exec_validate fl w s7 o sc log3.
 
 Definition exec_work (fl : flags) (w : wcfg) (rw : runner) (s4 : st) (o : Z) (sc : script) (log1 : list ev) : st * result :=
+  if negb (accepts (sc_wsh sc) 0) then
+    failed fl s4 o log1            (* work_fn() raises TypeError: its body does not run (WorkError) *)
+  else
   let '(s5, wl) := rw s4 (sc_work sc) in
   let log2 := log1 ++ EvWork s4 :: wl in
   if sc_work_raises sc then failed fl s5 o (log2 ++ [EvWorkRaise])
@@ -866,7 +938,9 @@ Definition step (fl : flags) (w : wcfg) (s : st) (a : op) : st * list (list Z) :
   | OExec o p reqs sc =>
       if is_active s o then (s, [[100; -1]])      (* the driver re-uses an id only after its operation ended *)
       else let '(s', r) := exec_op fl w s o p reqs sc in
-           (s', [100; b2z (r_success r); phase_code (r_phase r)] :: map (fun e => 105 :: obs_ev e) (r_log r))
+           (s', [100; b2z (r_success r); phase_code (r_phase r)]
+                  :: [106; Z.of_nat (work_runs r); Z.of_nat (validate_runs r)]
+                  :: map (fun e => 105 :: obs_ev e) (r_log r))
   end.
 
 Fixpoint run_ops (fl : flags) (w : wcfg) (s : st) (ops : list op) : st * list (list Z) :=
@@ -881,6 +955,8 @@ Fixpoint run_ops (fl : flags) (w : wcfg) (s : st) (ops : list op) : st * list (l
 Definition init_state (res : list (Z * bool)) : st :=
   mkSt (map (fun rp : Z * bool => (fst rp, mkLock None 0 0 (snd rp) [])) res) [] [] [] 0.
 
+(* rows of one execute_operation: [100; success; phase], [106; runs of the body of work_fn;
+   runs of the body of validate_fn], then [105; event] per entry of the callback log *)
 (* registered resources (id, allow_preemption), watchdog configuration, history *)
 Definition case := (list (Z * bool) * wcfg * list op)%type.
 
